@@ -24,6 +24,14 @@ ASSUME SameDecoding(Tails(2)) /\ SameDecoding(Tails(3))
 ASSUME \A a \in Texts(2) : \A b \in Texts(3) : ~DecEq(a, b) /\ Decode(a) # Decode(b)
 ASSUME \A a \in [1..3 -> {65, 66, 69, 33}] : \A h \in 0..4 : \A b \in [1..3 -> {65, 66, 69, 33}] : DecEqH(a, b, h) = DecEq(a, b)
 
+(* limb comparison = numeric comparison (values that fit TLC's integers, both signs, limb borders) *)
+P24 == 16777216
+Limbs(v) == IF v >= 0 THEN <<0, v \div P24, Mod(v, P24)>>
+            ELSE <<-1, (P24 - 1) - ((-v - 1) \div P24), (P24 - 1) - Mod(-v - 1, P24)>>
+TimeSamples == {-2000000000, -1000000000, -16777217, -16777216, -16777215, -2, -1, 0, 1, 59, 16777215, 16777216, 16777217,
+                1000000, 1790000000, 2147483646, 2147483647}
+ASSUME \A t1 \in TimeSamples : \A t2 \in TimeSamples : GeqW(Limbs(t1), Limbs(t2)) <=> t1 >= t2
+ASSUME GeqW(<<1, 0, 0>>, <<0, P24 - 1, P24 - 1>>) /\ ~GeqW(<<-1, P24 - 1, P24 - 1>>, <<0, 0, 0>>) /\ GeqW(<<0, 128, 0>>, <<0, 127, P24 - 1>>)
 Bytes == {0, 1, 15, 16, 63, 64, 128, 255}
 ASSUME \A n \in 0..3 : \A b \in [1..n -> Bytes] : Decode(Encode(b)) = b
 ASSUME \A b \in [1..4 -> {0, 255, 77}] : Decode(Encode(b)) = b /\ Len(Encode(b)) = 6
